@@ -47,7 +47,7 @@ NOTE = {
  "fault": "Trusted: oracle allocator; lying impls only hand out slices of memory they own (BufMut, an unsafe trait, is not lied about).",
  "recycle": "Trusted: allocator counters; bound constants derived from the documented growth policy (DESIGN 3/C18), audited through the published ratios.",
  "cfgdiff": "Trusted: digest function; the feature-set comparison is restricted to API present in all three feature sets.",
- "conc": "Trusted: baton scheduler + portable-atomic shim (conc/pa-shim) + vector-clock rules; interleavings are SC interleavings of atomic steps (weak-memory outcomes only via the TSan/Miri side runs).",
+ "conc": "Trusted: baton scheduler + portable-atomic shim (conc/pa-shim) + vector-clock rules; interleavings of atomic steps in which plain loads may additionally be given an older value that the C11 coherence rules allow (bounded per execution; the layer is re-validated by litmus programs on every worker); TSan / Miri side runs in the C06 check.",
 }
 
 def main():
@@ -88,7 +88,7 @@ def main():
         ],
         "checks": checks,
         "notes": "Every check is decided by generated-input search against an explicit oracle (see DESIGN.md). VERIF_SEED selects the random streams; bounded-exhaustive parts do not depend on it. "
-                 "Four genuine defects were found and repaired with fix: commits in /repo (known_findings.json, DESIGN.md section 5).",
+                 "Five genuine defects were found and repaired with fix: commits in /repo (known_findings.json, DESIGN.md sections 5 and 9.3).",
         "not_applicable": na,
     }
     json.dump(m, open(os.path.join(ROOT, "MANIFEST.json"), "w"), indent=1)
